@@ -208,6 +208,7 @@ class Store:
         self.cert = {}       # cert slot -> {'name': FormalName, 'data': bytes}
         self.pending_slot = None
         self._signer_memo = {}
+        self.held = []       # signer objects handed out earlier, with what they were when obtained
         self.kc = None
         self.open()
         # issuer of imported certificates: a harness-owned key outside the keychain
@@ -390,6 +391,55 @@ class Store:
             lb = self.Name.to_bytes(loc)
             hit = [c for c, v in self.cert.items() if self.Name.to_bytes(v['name']) == lb]
             out['lt'], out['lc'] = ('cert', sorted(hit)[0]) if hit else ('unknown', None)
+        if len(signed_by) == 1 and loc is not None:
+            self._hold(signer, signed_by[0], bytes(self.Name.to_bytes(loc)))
+        return out
+
+    # -- signers kept by the caller: a signer is a value, it must go on signing with the key and naming the
+    #    key locator it had when get_signer returned it (as long as that key exists)
+    HOLD = 3
+
+    def _hold(self, signer, k, loc_bytes):
+        ent = {'signer': signer, 'k': k, 'kname': bytes(self.Name.to_bytes(self.key[k]['name'])), 'loc': loc_bytes}
+        for h in self.held:
+            if h['signer'] is signer and h['k'] == k and h['loc'] == loc_bytes:
+                h['fresh'] = True
+                return
+        ent['fresh'] = True
+        self.held.append(ent)
+        del self.held[:-self.HOLD]
+
+    def reprobe(self, only_key=None, listed=None):
+        """Sign a probe with every kept signer (of key only_key, if given) and compare verifying key and key
+        locator with what they were when the signer was obtained. Returns [(kind, text)]."""
+        from ndn.encoding import make_data, MetaInfo, parse_data
+        out = []
+        keep = []
+        for h in self.held:
+            k = h['k']
+            alive = k in self.key and bytes(self.Name.to_bytes(self.key[k]['name'])) == h['kname'] \
+                and (listed is None or k in listed)
+            if not alive:
+                continue                      # the key is gone (or its slot holds another key): nothing is promised
+            fresh = h.pop('fresh', False)
+            if fresh or (only_key is not None and k != only_key):
+                keep.append(h)                # probed a moment ago by the step that returned it / not concerned
+                continue
+            _, _, _, sig = parse_data(make_data('/probe/c15/held', MetaInfo(), b'probe', signer=h['signer']))
+            loc = sig.signature_info.key_locator.name if sig.signature_info.key_locator is not None else None
+            lb = bytes(self.Name.to_bytes(loc)) if loc is not None else b''
+            bad = False
+            if lb != h['loc']:
+                bad = True
+                out.append(('key-locator', 'a signer obtained earlier for key %s named %s as key locator when it was returned and now names %s'
+                            % (kstr(k), self.Name.to_str(self.Name.from_bytes(h['loc'])),
+                               self.Name.to_str(loc) if loc is not None else 'nothing')))
+            if not self._verifies(self.key[k], sig):
+                bad = True
+                out.append(('key', 'a signer obtained earlier for key %s no longer signs with that key' % kstr(k)))
+            if not bad:
+                keep.append(h)                # unchanged: keep watching it (a changed one is reported once)
+        self.held = keep
         return out
 
     @staticmethod
